@@ -750,7 +750,9 @@ fn run_mt_slow(t: char, big: usize) -> (String, String, String, String) {
     if c.connected(DELIVERY_TIMEOUT).map(|x| x.1) != Some(true) {
         return ("#mt-setup".into(), "error".into(), "FAIL setup".into(), "mt".into())
     }
-    let counts = [1usize, 30, 30];
+    // WebSocket: a fourth thread with one 16 MiB message, so that more than one maximal frame (32 MiB) is
+    // pending in total while the receiver is stalled
+    let counts: Vec<usize> = if t == 'W' { vec![1, 30, 30, 1] } else { vec![1, 30, 30] };
     let mk = |th: usize, seq: usize, size: usize| {
         let mut m = vec![(th as u8) ^ 0xa5; size.max(16)];
         m[0..4].copy_from_slice(&(th as u32).to_le_bytes());
@@ -761,6 +763,7 @@ fn run_mt_slow(t: char, big: usize) -> (String, String, String, String) {
     let mut hs = vec![];
     for th in 0..counts.len() {
         let h = c.handler.clone();
+        let counts = counts.clone();
         hs.push(std::thread::spawn(move || {
             if th > 0 {
                 std::thread::sleep(Duration::from_millis(150));
@@ -768,7 +771,7 @@ fn run_mt_slow(t: char, big: usize) -> (String, String, String, String) {
             let mut bad = 0;
             for seq in 0..counts[th] {
                 // thread 1 sends empty messages (a frame of one byte): they must wait for the lock like any other
-                let m = if th == 1 { vec![] } else { mk(th, seq, if th == 0 { big } else { 200 }) };
+                let m = if th == 1 { vec![] } else { mk(th, seq, if th == 0 { big } else if th == 3 { 16 << 20 } else { 200 }) };
                 if h.network().send(ep, &m) != SendStatus::Sent {
                     bad += 1;
                 }
@@ -1069,6 +1072,50 @@ fn run_slow_reader_v(t: char, boundary: bool) -> (String, String, String, String
     )
 }
 
+/// the WebSocket acceptor (a tungstenite server) greets at once: four messages written right behind the
+/// 101 answer, then silence.  The connector may find some or all of them together with the answer (they
+/// are then already inside the codec when the handshake completes): Connected and all four must arrive.
+fn run_early_ws() -> (String, String, String, String) {
+    let l = match std::net::TcpListener::bind("127.0.0.1:0") {
+        Ok(l) => l,
+        Err(_) => return ("#earlyws-setup".into(), "error".into(), "FAIL setup".into(), "earlyws".into()),
+    };
+    let addr = l.local_addr().unwrap();
+    let sizes = [5usize, 0, 5, 128];
+    let server = std::thread::spawn(move || {
+        let Ok((s, _)) = l.accept() else { return };
+        let Ok(mut ws) = tungstenite::accept(s) else { return };
+        for (i, n) in sizes.iter().enumerate() {
+            let _ = ws.write(tungstenite::Message::Binary(make_msg(i, *n).into()));
+        }
+        let _ = ws.flush();
+        std::thread::sleep(Duration::from_millis(1500));
+    });
+    let c = TestNode::new();
+    let Ok((_ep, _)) = c.handler.network().connect(Transport::Ws, addr) else {
+        return ("#earlyws-setup".into(), "error".into(), "FAIL setup".into(), "earlyws".into())
+    };
+    let connected = c.connected(DELIVERY_TIMEOUT).map(|x| x.1) == Some(true);
+    let deadline = Instant::now() + Duration::from_millis(1000);
+    while c.messages().len() < sizes.len() && Instant::now() < deadline {
+        std::thread::sleep(Duration::from_millis(5));
+    }
+    let got = c.messages();
+    let want: Vec<Vec<u8>> = sizes.iter().enumerate().map(|(i, n)| make_msg(i, *n)).collect();
+    let ok = connected && got == want;
+    let _ = server.join();
+    if std::env::var("VERIF_DEBUG").is_ok() {
+        std::thread::sleep(Duration::from_millis(300));
+        eprintln!("after the server closed: {} messages", c.messages().len());
+    }
+    (
+        "stream earlyws".into(),
+        format!("delivered={}/{}", if ok { 4 } else { got.len().min(3) }, sizes.len()),
+        if ok { "ok".into() } else { format!("FAIL connected={} received {} of the 4 messages the acceptor sent behind its handshake answer (sizes {:?})", connected, got.len(), got.iter().map(|m| m.len()).collect::<Vec<_>>()) },
+        "earlyws,Wraw>node,a2c,early-bytes,burst3,boundary".into(),
+    )
+}
+
 /// C10: several threads (and the receiver's own callback thread of the *sending* node) send on one endpoint
 fn run_mt(t: char, threads: usize, per: usize, size: usize) -> (String, String, String, String) {
     let tr = transport(t);
@@ -1253,6 +1300,10 @@ fn main() {
                 }
             }
         }
+        "gen-earlyws" => {
+            let (c, im, o, tg) = run_early_ws();
+            emit(&mut out, &c, &im, &o, &tg);
+        }
         "gen-slowreader" => {
             for t in arg(2).chars() {
                 let (c, im, o, tg) = run_slow_reader(t);
@@ -1370,6 +1421,10 @@ fn main() {
                 }
                 else if ws.len() == 5 && ws[0] == "stream" && ws[1] == "size" {
                     let (c, i, o, tg) = run_size(ws[2].chars().next().unwrap_or('W'), ws[3] == "c2a", ws[4].parse().unwrap_or(0));
+                    emit(&mut out, &c, &i, &o, &tg);
+                }
+                else if ws.len() == 2 && ws[0] == "stream" && ws[1] == "earlyws" {
+                    let (c, i, o, tg) = run_early_ws();
                     emit(&mut out, &c, &i, &o, &tg);
                 }
                 else if (ws.len() == 3 || ws.len() == 4) && ws[0] == "stream" && ws[1] == "slowreader" {
